@@ -48,6 +48,28 @@ func onlyLoop(fd *ast.FuncDecl, who string) {
 	}
 }
 
+// loopOver finds the loop of a function over a list, in either form - `for _, x := range xs` or
+// `for i := range len(xs) { x := xs[i]; ...` - and returns the element variable and the body.
+func loopOver(fd *ast.FuncDecl, who string) (elem string, body []ast.Stmt) {
+	for _, st := range fd.Body.List {
+		rs, ok := st.(*ast.RangeStmt)
+		if !ok {
+			continue
+		}
+		if rs.Value != nil {
+			return src(rs.Value), rs.Body.List
+		}
+		if call, ok := rs.X.(*ast.CallExpr); ok && src(call.Fun) == "len" && len(call.Args) == 1 && rs.Key != nil && len(rs.Body.List) > 0 {
+			if as, ok := rs.Body.List[0].(*ast.AssignStmt); ok && as.Tok == token.DEFINE && len(as.Lhs) == 1 && len(as.Rhs) == 1 &&
+				src(as.Rhs[0]) == src(call.Args[0])+"["+src(rs.Key)+"]" {
+				return src(as.Lhs[0]), rs.Body.List[1:]
+			}
+		}
+	}
+	fail("%s: loop over the list not found", who)
+	return "", nil
+}
+
 // switchToIf turns a tagless switch into the equivalent if / else-if chain.
 func switchToIf(sw *ast.SwitchStmt) ast.Stmt {
 	var def *ast.BlockStmt
@@ -311,16 +333,7 @@ func emitResponses(fs *strings.Builder, p *pkg, c *consts, funcs map[string]stri
 	}
 	who := file + ":responses"
 	onlyLoop(fd, who)
-	var loop *ast.RangeStmt
-	for _, st := range fd.Body.List {
-		if rs, ok := st.(*ast.RangeStmt); ok {
-			loop = rs
-		}
-	}
-	if loop == nil || loop.Value == nil {
-		fail("%s: loop over the tasks not found", who)
-	}
-	tv := src(loop.Value)
+	tv, loopBody := loopOver(fd, who)
 	type env struct {
 		atoms   map[string]string // Go source text -> Lean
 		errv    string            // Go expression denoting the task's error in this scope
@@ -419,6 +432,41 @@ func emitResponses(fs *strings.Builder, p *pkg, c *consts, funcs map[string]stri
 			if v.Tag == nil && v.Init == nil {
 				if conv := switchToIf(v); conv != nil {
 					return walk(append([]ast.Stmt{conv}, rest...), e, ind, onReturn)
+				}
+			}
+		case *ast.TypeSwitchStmt:
+			// `switch x := err.(type) { case nil: .. case *Error: .. default: .. }`
+			if as, ok := v.Assign.(*ast.AssignStmt); ok && v.Init == nil && len(as.Lhs) == 1 && src(as.Rhs[0]) == e.errv+".(type)" {
+				bound := src(as.Lhs[0])
+				var nilBody, jBody, defBody []ast.Stmt
+				okShape := true
+				for _, cs := range v.Body.List {
+					cc := cs.(*ast.CaseClause)
+					switch {
+					case cc.List == nil:
+						defBody = cc.Body
+					case len(cc.List) == 1 && src(cc.List[0]) == "nil":
+						nilBody = cc.Body
+					case len(cc.List) == 1 && src(cc.List[0]) == "*Error":
+						jBody = cc.Body
+					default:
+						okShape = false
+					}
+				}
+				if okShape && jBody != nil && defBody != nil {
+					je := clone(e)
+					je.ev, je.evState = bound, "asIs"
+					je.atoms["len("+bound+".Data)"] = "dataLen"
+					je.atoms["json.Valid("+bound+".Data)"] = "dataValid"
+					de := clone(e)
+					bindErr(&de, bound)
+					out := "if isJ then\n" + ind + "    " + walk(append(append([]ast.Stmt{}, jBody...), rest...), je, ind+"    ", onReturn) + "\n" + ind + "  else\n" + ind + "    " +
+						walk(append(append([]ast.Stmt{}, defBody...), rest...), de, ind+"    ", onReturn)
+					nilPart := out
+					if nilBody != nil {
+						nilPart = walk(append(append([]ast.Stmt{}, nilBody...), rest...), clone(e), ind+"  ", onReturn)
+					}
+					return "if errNil then\n" + ind + "  " + nilPart + "\n" + ind + "else\n" + ind + "  " + out
 				}
 			}
 		case *ast.AssignStmt:
@@ -557,7 +605,7 @@ func emitResponses(fs *strings.Builder, p *pkg, c *consts, funcs map[string]stri
 		fail("%s: unsupported statement %q", who, src(s0))
 		return ""
 	}
-	body := walk(loop.Body.List, e0, "  ", nil)
+	body := walk(loopBody, e0, "  ", nil)
 	fmt.Fprintf(fs, "/-- %s: the body of the loop of `tasks.responses` as a whole: the reply one task produces (`none` = no reply). `errCode` is `ErrorCode(task.err)`, `isJ` = the error is an `*Error`, `dataLen` / `dataValid` describe its data -/\n"+
 		"def responseFor (idNil : Bool) (id : List UInt8) (mNil errNil isJ : Bool) (dataLen : Int) (dataValid : Bool) (errCode : Int) : Option RespOut :=\n  %s\n\n", file, body)
 }
@@ -574,16 +622,7 @@ func emitFilter(fs *strings.Builder, p *pkg, c *consts, funcs map[string]string)
 	}
 	who := file + ":filterBatchLocked"
 	onlyLoop(fd, who)
-	var loop *ast.RangeStmt
-	for _, st := range fd.Body.List {
-		if rs, ok := st.(*ast.RangeStmt); ok {
-			loop = rs
-		}
-	}
-	if loop == nil || loop.Value == nil {
-		fail("%s: loop over the members not found", who)
-	}
-	mv := src(loop.Value)
+	mv, loopBody := loopOver(fd, who)
 	keepVar := ""
 	for _, st := range fd.Body.List {
 		if as, ok := st.(*ast.AssignStmt); ok && as.Tok == token.DEFINE && len(as.Lhs) == 1 && strings.HasPrefix(src(as.Rhs[0]), "make(jmessages") {
@@ -727,7 +766,7 @@ func emitFilter(fs *strings.Builder, p *pkg, c *consts, funcs map[string]string)
 		fail("%s: unsupported statement %q", who, src(st))
 		return ""
 	}
-	body := walk(loop.Body.List, e0, "  ")
+	body := walk(loopBody, e0, "  ")
 	fmt.Fprintf(fs, "/-- %s: the body of the loop of `Server.filterBatchLocked` as a whole: what the reader does with one member. `callHas k` = a callback is pending under key `k`; `deliver k deleted` = the member is handed to that callback after its entry was (`deleted`) removed -/\n"+
 		"def filterAct (isReq : Bool) (rawID m : List UInt8) (e : Option Unit) (r : List UInt8) (allowP : Bool) (callHas : List UInt8 → Bool) : FilterAct :=\n  %s\n\n", file, body)
 }
